@@ -133,10 +133,12 @@ def data(case, key='seed', m=None):
         x = rng.uniform(-1, 1, (case['d'], m))
     if case.get('duplicate') and m >= 2:
         x[:, -1] = x[:, 0]
+    if form == 'readonly':
+        x.setflags(write=False)        # e.g. a memory-mapped trajectory: any hidden write into the caller's data raises
     return x
 
 
-DATA_FORM = st.sampled_from(['float', 'float', 'float', 'int', 'strided', 'fortran'])
+DATA_FORM = st.sampled_from(['float', 'float', 'float', 'int', 'strided', 'fortran', 'readonly'])
 
 
 def psi_ref(values):
@@ -190,14 +192,14 @@ def body_general(case):
     vals = [np.array([[ref_value(s, x[:, j]) for j in range(case['m'])] for s in f]) for f in case['phi']]
     want = psi_ref(vals)
     p = len(phi)
-    t = tdt.basis_decomposition(x.copy(), phi)
+    t = tdt.basis_decomposition(x, phi)
     require_consistent(t, 'consistent')
     n = [len(f) for f in phi]
     require(t.order == p + 1 and t.row_dims == n + [case['m']] and t.col_dims == [1] * (p + 1), 'dims',
             'rows %s cols %s' % (t.row_dims, t.col_dims))
     close(dense.contract(t.cores).reshape(n + [case['m']]), want, 1e-12, 1.0 + np.max(np.abs(want)), 'psi_value', 'basis_decomposition')
     for k in range(p):
-        c = tdt.basis_decomposition(x.copy(), phi, single_core=k)
+        c = tdt.basis_decomposition(x, phi, single_core=k)
         require(isinstance(c, np.ndarray) and c.shape == t.cores[k].shape and np.array_equal(c, t.cores[k]), 'single_core',
                 'single_core=%d differs from the core of the full construction' % k)
     # Gram matrix of two data sets; also as two overlapping (time-lagged) views of one trajectory
@@ -213,7 +215,7 @@ def body_general(case):
         gs = tdt.gram(x, x, phi)
         Gs = want.reshape(-1, case['m']).T @ want.reshape(-1, case['m'])
         close(np.asarray(gs), Gs, 1e-11, 1.0 + np.max(np.abs(Gs)), 'gram_value', 'gram(x, x)')
-    g = tdt.gram(x.copy(), x2.copy(), phi)
+    g = tdt.gram(x, x2, phi)
     vals2 = [np.array([[ref_value(s, x2[:, j]) for j in range(case['m2'])] for s in f]) for f in case['phi']]
     want2 = psi_ref(vals2)
     G = want.reshape(-1, case['m']).T @ want2.reshape(-1, case['m2'])
@@ -249,12 +251,12 @@ def body_major(case):
     # coordinate-major: mode i = coordinate i, entries phi_k(x[i, j])
     vals = [np.array([[SCALAR_F[k](x[i, j]) for j in range(m)] for k in names]) for i in range(d)]
     want = psi_ref(vals)
-    t = tdt.coordinate_major(x.copy(), phi)
+    t = tdt.coordinate_major(x, phi)
     require_consistent(t, 'consistent')
     require(t.row_dims == [p] * d + [m] and t.col_dims == [1] * (d + 1), 'dims', 'coordinate_major rows %s' % t.row_dims)
     close(dense.contract(t.cores).reshape([p] * d + [m]), want, 1e-12, 1.0 + np.max(np.abs(want)), 'coordinate_major_value', 'coordinate_major')
     for k in range(d):
-        c = tdt.coordinate_major(x.copy(), phi, single_core=k)
+        c = tdt.coordinate_major(x, phi, single_core=k)
         require(isinstance(c, np.ndarray) and c.shape == t.cores[k].shape and np.array_equal(c, t.cores[k]), 'single_core',
                 'coordinate_major single_core=%d' % k)
     # function-major: mode i = function i, entries [1,] phi_i(x[k, j]) over coordinates k
@@ -266,13 +268,13 @@ def body_major(case):
             v = np.vstack([np.ones((1, m)), v])
         vals.append(v)
     want = psi_ref(vals)
-    t = tdt.function_major(x.copy(), phi, add_one=ao)
+    t = tdt.function_major(x, phi, add_one=ao)
     require_consistent(t, 'consistent')
     n = d + (1 if ao else 0)
     require(t.row_dims == [n] * p + [m] and t.col_dims == [1] * (p + 1), 'dims', 'function_major rows %s' % t.row_dims)
     close(dense.contract(t.cores).reshape([n] * p + [m]), want, 1e-12, 1.0 + np.max(np.abs(want)), 'function_major_value', 'function_major')
     for k in range(p):
-        c = tdt.function_major(x.copy(), phi, add_one=ao, single_core=k)
+        c = tdt.function_major(x, phi, add_one=ao, single_core=k)
         require(isinstance(c, np.ndarray) and c.shape == t.cores[k].shape and np.array_equal(c, t.cores[k]), 'single_core',
                 'function_major single_core=%d' % k)
     if m == 1:
@@ -305,7 +307,7 @@ def hocur_case(draw):
     return {'d': d, 'm': m, 'phi': phi, 'seed': draw(gen.SEED), 'duplicate': draw(st.sampled_from([False, False, True])),
             'ranks_extra': draw(st.integers(0, 3)), 'repeats': draw(st.integers(1, 3)), 'multiplier': draw(st.sampled_from([2, 3, 10])),
             'ranks_list': draw(st.booleans()), 'reuse_ranks': draw(st.booleans()),
-            'data_form': draw(st.sampled_from(['float', 'float', 'strided', 'fortran']))}
+            'data_form': draw(st.sampled_from(['float', 'float', 'strided', 'fortran', 'readonly']))}
 
 
 def body_hocur(case):
@@ -327,7 +329,7 @@ def body_hocur(case):
         # the request "ranks >= true ranks" of the second call is the caller's list, whatever the first call adapted
         x1 = np.repeat(x[:, :1], case['m'], axis=1)
         tdt.hocur(x1, phi, ranks, repeats=case['repeats'], multiplier=case['multiplier'], progress=False)
-    t = tdt.hocur(x.copy(), phi, ranks, repeats=case['repeats'], multiplier=case['multiplier'], progress=False)
+    t = tdt.hocur(x, phi, ranks, repeats=case['repeats'], multiplier=case['multiplier'], progress=False)
     require_consistent(t, 'consistent')
     n = [len(f) for f in phi]
     require(t.row_dims == n + [case['m']] and t.col_dims == [1] * (p + 1), 'dims', 'hocur rows %s' % t.row_dims)
@@ -340,7 +342,8 @@ def body_hocur(case):
 
 
 def nt(labels):
-    return bool({'m1', 'd1', 'single_function_mode', 'mixed_families', 'duplicated_snapshot', 'add_one_false', 'p1', 'data_int', 'data_strided', 'data_fortran'} & set(labels))
+    return bool({'m1', 'd1', 'single_function_mode', 'mixed_families', 'duplicated_snapshot', 'add_one_false', 'p1', 'data_int', 'data_strided', 'data_fortran',
+                 'data_readonly'} & set(labels))
 
 
 SUBCHECKS = [
